@@ -138,6 +138,16 @@ func (interp *Interpreter) CompileAST(n ast.Node) (*Program, error) {
 	return &Program{pkgName, root, initNodes}, nil
 }
 
+// clearPanic forgets the panic recorded in the root frame once it has left the
+// evaluation and been returned as an error: it is no longer in flight, and the
+// root frame is reused by later evaluations and host calls, where recover()
+// must return nil as long as nothing panics.
+func (interp *Interpreter) clearPanic() {
+	interp.frame.mutex.Lock()
+	interp.frame.recovered = nil
+	interp.frame.mutex.Unlock()
+}
+
 // Execute executes compiled Go code.
 func (interp *Interpreter) Execute(p *Program) (res reflect.Value, err error) {
 	return interp.execute(p, interp.runid())
@@ -150,6 +160,7 @@ func (interp *Interpreter) execute(p *Program, id uint64) (res reflect.Value, er
 	defer func() {
 		r := recover()
 		if r != nil {
+			interp.clearPanic()
 			var pc [64]uintptr // 64 frames should be enough.
 			n := runtime.Callers(1, pc[:])
 			err = Panic{Value: r, Callers: pc[:n], Stack: debug.Stack()}
